@@ -580,6 +580,12 @@ func runCLI(c *harness.Ctx, sc scenario, s, slot int) {
 		method = []string{"HEAD", "PUT", "GET"}[(slot-1)%3]
 		fk = int64((slot-1)/3 + 1)
 	}
+	// the refusal is a 403, or (uploads only) what an authenticating proxy with an expired session does: a redirect
+	// to a page that exists, which an HTTP client follows with a GET that is answered 200
+	redirect := method == "PUT" && rng.Intn(2) == 0
+	if redirect {
+		method = "PUT>302"
+	}
 	c.Info("scenario=%d op=cli:%s chunks=%d n=%d fault=%s@%d", s, cmdName, len(sc.idx.Chunks), sc.n, method, fk)
 	c.LogInfo()
 	dir := c.CaseDir()
@@ -589,8 +595,17 @@ func runCLI(c *harness.Ctx, sc scenario, s, slot int) {
 	var delivered int64
 	wrap := func(h http.Handler) http.Handler {
 		return http.HandlerFunc(func(w http.ResponseWriter, r *http.Request) {
+			if r.URL.Path == "/login" {
+				fmt.Fprintln(w, "<html>please log in</html>")
+				return
+			}
 			mi := map[string]int{"HEAD": 0, "PUT": 1, "GET": 2}[r.Method]
 			n := atomic.AddInt64(&counts[mi], 1)
+			if redirect && r.Method == "PUT" && n == fk {
+				atomic.AddInt64(&delivered, 1)
+				http.Redirect(w, r, "/login", http.StatusFound)
+				return
+			}
 			if r.Method == method && n == fk {
 				atomic.AddInt64(&delivered, 1)
 				http.Error(w, "forbidden (injected)", http.StatusForbidden)
